@@ -8,10 +8,22 @@ CONFIG = {
                 "other points only; all stored values of a field share its recorded type; re-writing identical points changes no read. The model is "
                 "diffed on every run against a real tsdb.Shard (WAL on, explicit snapshots/compactions/deletes/reopen); EVERY read is taken through both read "
                 "paths - the InfluxQL iterator (Shard.CreateIterator) and the array cursors (Shard.CreateCursorIterator, five types) - ascending and "
-                "descending, and both observations are compared with the LWW spec of the acknowledged history.",
+                "descending, and both observations are compared with the LWW spec of the acknowledged history. "
+                "LAYER B (theories/C02/Blocks.v): files as lists of BLOCKS with per-file tombstones, FileStore.locations, the insertion sort of block "
+                "locations, KeyCursor seek/Next/Read<T>Block with read marks, and the cache/TSM merge of the engine cursors are modelled statement for "
+                "statement. Theorems: for EVERY list of well-formed files (arbitrary overlaps across files, any number of blocks), every tombstone set and "
+                "every seek time (MinInt64 < t ascending, t < MaxInt64 descending) and BOTH directions the concatenated blocks of the KeyCursor - Read<T>Block / "
+                "Next with their read marks, the doubled first location of nextDescending, the mirrored merge - equal the layer-A read from t on/down "
+                "(keycursor_refines_layerA; fuel proved sufficient); sortLocations keeps overlapping blocks in file order for any number of locations; the "
+                "cache/TSM merge is the newest-wins merge with the cache on top in both directions, so the engine cursor equals the layer-A read "
+                "of files and cache over [seek, end] (engine_cursor_reads_layerA). Every run builds real TSM files with chosen block boundaries and per-file tombstones and reads them "
+                "block by block through the real KeyCursor (Read<T>Block and Read<T>ArrayBlock, five types, both directions, many seek times) and through the "
+                "array cursor (result buffers of 1-7 slots) and the iterator cursor with real cache values; each returned block is compared with the model, "
+                "each concatenation with the layer-A read.",
         "note": "Trusts Coq kernel/vm_compute, the harness and its canonicalisers (long reads are compared by length, first/last 8 points and three "
-                "polynomial digests). Layer A only: block layout/KeyCursor merging, TSM/WAL bytes, the series index and key escaping are covered by the "
-                "differential run, not by a theorem. Delete during an in-flight snapshot is excluded (C10 finding; refutation lemma included).",
+                "polynomial digests). Layer B is proved for both directions about the Gallina mirror of KeyCursor; Values.Merge/Exclude/Include "
+                "(modelled as sorted-list merge/filters), the array-cursor batching, block encoding, TSM/WAL bytes, the index-level tombstone bookkeeping (an input of the layer-B cases), "
+                "the series index and key escaping are covered by the differential run, not by a theorem. Delete during an in-flight snapshot is excluded (C10 finding; refutation lemma included).",
         "technique": "Coq proof (refinement invariant by induction over step histories) on a Gallina model + differential correspondence against the real shard",
     },
     "harness": "h_c02",
@@ -19,8 +31,15 @@ CONFIG = {
     "n": {"quick": 256, "thorough": 4000},
     "shard": 17,
     "harness_timeout": {"quick": 900, "thorough": 7200},
-    "extra_proof_files": ["KV", "SpecProofs", "FastProofs"],
-    "rule": "corpus (designed witnesses incl. the two repaired defects) first, then designed histories (value overwritten in a newer file / in the snapshot / in the "
+    "extra_proof_files": ["KV", "SpecProofs", "FastProofs", "BlocksProofs", "BlocksRefine", "BlocksLayerA", "BlocksRefineDesc", "BlocksLayerADesc"],
+    "rule": "corpus (designed witnesses incl. the two repaired defects, at history level and as minimal block layouts: three overlapping generations of "
+            "2-point blocks = 24 locations for 7659585, a 3-slot array-cursor batch ending inside a block with interleaved cache values for f168b0b) first; "
+            "LAYER B cases (kind blocks): designed layouts (15 and 33 locations, partially/wholly/jointly tombstoned blocks, a newer block strictly inside an older "
+            "one, seeks at both ends of int64, all five types) then N/2 seeded layouts: 2-6 files over a 40-120 tick axis (also at influxql.MinTime/MaxTime and "
+            "with step 1000), blocks of 1-5 points, maximal-overlap / staircase / random windows, 0-2 tombstones per file (whole block, head, tail, random, wide), "
+            "4-7 reads each from block boundaries +-1, the ends and random times, asc/desc, through Read<T>Block, Read<T>ArrayBlock, the array cursor with a "
+            "1-7 slot buffer and an end time, and the iterator cursor, the latter two with 0-11 cache writes (duplicates, out of order); "
+            "then designed histories (value overwritten in a newer file / in the snapshot / in the "
             "hot cache; type-conflict partial write + identical re-write; in-batch conflicting new types; runs of exactly 999/1000/1001 points in overlapping "
             "generations with a partially tombstoned block and MinNanoTime/MaxNanoTime points; delete of a whole measurement then a new type; size-2 compaction blocks "
             "read from inside a block in both directions), then seeded random histories: 6-20 ops among write (1-28 points, 1-3 fields, five types, extreme values, "
@@ -32,8 +51,18 @@ CONFIG = {
             "spread starts: chains of overlapping files, >12 blocks per key), inmem and tsi1 index; a final sweep of reads. distinct = distinct history; "
             "non-trivial = at least one acknowledged write and one non-empty read",
     "trusted_base": [
-        "C02: layer A model: a file is its per-key sorted values + tombstone ranges; blocks, KeyCursor seek/next and block merging (file_store.gen.go), the TSM/WAL bytes, "
-        "the iterator stack above the cursors and the series index are exercised by the harness but have no theorem",
+        "C02: layer A model: a file is its per-key sorted values + tombstone ranges. Layer B model (Blocks.v): blocks, FileStore.locations, sortLocations, KeyCursor "
+        "seek/Next/Read<T>Block (file_store.go, file_store.gen.go; Read<T>ArrayBlock is the same algorithm and is diffed against the same model) and the cache/TSM "
+        "merge of array_cursor.gen.go / iterator.gen.go; proved to refine layer A in both directions (keycursor_refines_layerA, engine_cursor_reads_layerA). "
+        "Values.Merge / Exclude / Include are modelled as merge of sorted lists (second wins) and filters; the batching of the array cursor (result buffer, the "
+        "whole-block fast path) is not modelled, only its concatenated output is compared; the TSM/WAL bytes, the iterator stack above the cursors and the "
+        "series index are exercised by the harness but have no theorem",
+        "C02: a layer-B case takes as INPUT what the opened file reports to the cursor (TombstoneRange(key), whether the key still has index entries): the index "
+        "drops a key whose tombstones jointly cover it; Run.v checks that a dropped key had no live value left and that index entries equal the blocks written",
+        "C02: layer-B seek times: the theorems need MinInt64 < t (ascending; t-1 wraps in FileStore.locations, keycursor_seek_minint64_refuted) resp. t < MaxInt64 "
+        "(descending); the query API stays inside (influxql.MinTime = MinInt64+2, MaxTime = MaxInt64-1); seeks at the very ends are replayed for model agreement only",
+        "C02: hook tsdb/engine/tsm1/verif_export_c02_cursor.go (build tag verif): constructors of the integer/float array cursors with a chosen result-buffer "
+        "length and a drain loop over the iterator-level integer/float cursors, over given cache values and a KeyCursor",
         "C02: keys are the structural encoding (measurement, field, tag part) produced by the harness; key string syntax/escaping, 'time' tags/fields and the "
         "INFLUXDB_SERIES_TYPE_CHECK_ENABLED engine check (off by default) are not modelled",
         "C02: which measurements lose their field set at the end of a delete is an oracle input of the model step (any subset of the measurements left without a value); "
@@ -49,9 +78,13 @@ CONFIG = {
     ],
     "modelled": "tsdb/shard.go WritePointsWithContext/validateSeriesAndFields/createFieldsAndMeasurements, field_validator.go, tsm1 engine.go WritePoints/WriteSnapshot/"
                 "deleteSeriesRange/LoadMetadataIndex/buildCursor, cache.go WriteMulti/Snapshot/DeleteRange/Values, compaction at the logical level are modelled "
-                "(theories/C02/Model.v on Shard/Store.v); not modelled: block layout and KeyCursor (layer B), ring sharding of the cache, mmap, checksums, index, "
+                "(theories/C02/Model.v on Shard/Store.v); file_store.go FileStore.locations / sortLocations / KeyCursor seek, Next, nextAscending, nextDescending, "
+                "location.read/markRead, file_store.gen.go Read<T>Block, the cache/TSM merge of array_cursor.gen.go and iterator.gen.go (theories/C02/Blocks.v); "
+                "not modelled: block encoding, Values.Merge internals, array-cursor batching, ring sharding of the cache, mmap, checksums, index, "
                 "compaction planner (contiguous groups are an input), failed/retried snapshots (C01), delete during an in-flight snapshot (C10 finding)",
     "assumptions": ["no delete runs while a cache snapshot is in flight (hist_ok); compaction groups are contiguous in (generation, sequence) order",
+                    "layer B: blocks of a file are non-empty, strictly sorted and do not overlap within the file (what TSMWriter/compaction produce); files are "
+                    "listed in FileStore.files order = path order; seek times MinInt64 < t <= MaxInt64 (ascending), MinInt64 <= t < MaxInt64 (descending)",
                     "timestamps are int64; batches whose NEW fields disagree among themselves are refused as a whole and are outside type_conflict_partial/rewrite_idempotent"],
 }
 
